@@ -10,6 +10,7 @@ import (
 	"path/filepath"
 	"reflect"
 	"strings"
+	"syscall"
 	"time"
 
 	"git.metabarcoding.org/obitools/obitools4/obitools4/pkg/obiformats"
@@ -487,7 +488,7 @@ func runE2EWith(c *core.Ctx, asan bool) {
 		stdin bool
 		args  []string
 	}
-	vars := []variant{{"file", base, false, nil}}
+	vars := []variant{{"file", base, false, nil}, {"named-pipe", base, false, nil}}
 	if format == "fasta" || format == "fastq" {
 		vars = append(vars, variant{"stdin", base, true, nil})
 		vars = append(vars, variant{"file-forced-format", base, false, []string{"--" + format}})
@@ -529,10 +530,31 @@ func runE2EWith(c *core.Ctx, asan bool) {
 		}
 		if v.stdin {
 			opt.StdinFile = v.path
+		} else if v.name == "named-pipe" {
+			// the file given by name is a FIFO (mkfifo) that another process fills
+			fifo := base + ".fifo"
+			os.Remove(fifo)
+			if err := syscall.Mkfifo(fifo, 0o600); err != nil {
+				continue
+			}
+			go func(text []byte) {
+				if f, err := os.OpenFile(fifo, os.O_WRONLY, 0); err == nil {
+					f.Write(text)
+					f.Close()
+				}
+			}(fc.text)
+			defer os.Remove(fifo)
+			args = append(args, fifo)
 		} else {
 			args = append(args, v.path)
 		}
 		res := cmdx.Run(bin, args, opt)
+		if v.name == "named-pipe" {
+			// unblock the feeding goroutine if the command never opened the pipe
+			if f, err := os.OpenFile(base+".fifo", os.O_RDONLY|syscall.O_NONBLOCK, 0); err == nil {
+				f.Close()
+			}
+		}
 		c.Count("evaluations", 1)
 		c.Count("command_runs", 1)
 		if asan {
